@@ -309,6 +309,118 @@ def run(ctx: Ctx):
     ctx.guarded(pure_move, ctx)
     res.rule("WEIGHTS-SEEN", "PARAFAC2 (warm start with any weights): typestate of the weights along every branch-consistent path -- a call that receives the factor list without the weights is only reached when the weights were just reset to ones after being absorbed into a factor", floor=1)
     ctx.guarded(weights_seen, ctx)
+    res.rule("INIT-AS-GIVEN", "on the path an initialiser takes for a user-supplied decomposition (init is a tuple / list / tensor object) no factor is replaced by the output of a transforming routine (projection, proximal operator, SVD, random draw, clipping, absolute value outside the non-negative option) before it is returned: the iteration starts from the tensor the initialisation represents", floor=3)
+    ctx.guarded(init_as_given, ctx)
+
+
+# ---------------------------------------------------------------------------------
+# INIT-AS-GIVEN: a warm start is not projected / re-drawn / re-factorised by the initialiser
+# ---------------------------------------------------------------------------------
+INITIALISERS = [
+    # (function, init parameter, names of options under which an entrywise abs is part of the contract)
+    ("tensorly.decomposition._cp.initialize_cp", "init", ("non_negative",)),
+    ("tensorly.decomposition._constrained_cp.initialize_constrained_parafac", "init", ()),
+    ("tensorly.decomposition._tucker.initialize_tucker", "init", ("non_negative",)),
+]
+TRANSFORMERS = {"proximal_operator", "svd_interface", "random_cp", "random_sample", "random_tucker", "qr", "svd", "clip", "make_svd_non_negative", "hals_nnls", "fista", "active_set_nnls", "sign", "round", "where", "maximum", "minimum", "tucker_normalize", "soft_thresholding", "simplex_prox", "normalized_sparsity_prox", "hard_thresholding"}
+ABS_LIKE = {"abs", "absolute"}
+
+
+class _InitGiven:
+    """state: "" or the description of the first transforming store into the user's factors"""
+
+    def __init__(self, f, repo, init_p, abs_opts):
+        self.f, self.repo, self.init_p, self.abs_opts = f, repo, init_p, abs_opts
+        # family: names that hold (parts of) the user's decomposition
+        fam = {init_p}
+        changed = True
+        while changed:
+            changed = False
+            for s in own_scope_nodes(f.node):
+                if isinstance(s, ast.Assign):
+                    reads = {n.id for n in ast.walk(s.value) if isinstance(n, ast.Name)}
+                    if reads & fam:
+                        for t in s.targets:
+                            for x in ast.walk(t):
+                                if isinstance(x, ast.Name) and isinstance(x.ctx, ast.Store) and x.id not in fam:
+                                    fam.add(x.id)
+                                    changed = True
+        self.fam = fam
+
+    def init_state(self):
+        return ""
+
+    def _transforming(self, value, depth=0):
+        """name of a transforming routine applied to a family value inside `value`, or None"""
+        for c in ast.walk(value):
+            if not isinstance(c, ast.Call):
+                continue
+            nm = call_name(c) or ""
+            touches = any(isinstance(n, ast.Name) and n.id in self.fam for a in list(c.args) + [k.value for k in c.keywords] for n in ast.walk(a))
+            if not touches:
+                continue
+            if nm in TRANSFORMERS:
+                return nm
+            if nm in ABS_LIKE:
+                return "abs"
+            if depth < 2:
+                ct = self.repo.resolve_call(self.f, self.f.module, c)
+                if ct.kind == "repo" and len(ct.funcs) == 1 and ct.funcs[0].module.name.startswith("tensorly.decomposition"):
+                    g = ct.funcs[0]
+                    for r in own_scope_nodes(g.node):
+                        if isinstance(r, ast.Assign) or isinstance(r, ast.Return):
+                            v = r.value
+                            if v is not None:
+                                for cc in ast.walk(v):
+                                    if isinstance(cc, ast.Call) and (call_name(cc) or "") in TRANSFORMERS:
+                                        return f"{g.name} -> {call_name(cc)}"
+        return None
+
+    def transfer(self, node, st, ex):
+        a = node.ast
+        if a is None:
+            return st
+        if node.kind == "stmt" and isinstance(a, (ast.Assign, ast.AugAssign)):
+            tgts = a.targets if isinstance(a, ast.Assign) else [a.target]
+            hits_family = False
+            for t in tgts:
+                b = t
+                for x in ast.walk(t):
+                    if isinstance(x, ast.Name) and x.id in self.fam:
+                        hits_family = True
+            if hits_family and st == "":
+                tr = self._transforming(a.value)
+                if tr == "abs" and self.abs_opts:
+                    # the path is explored with the non-negative option off; an abs that is still reached
+                    # there is unconditional
+                    pass
+                if tr is not None:
+                    return f"`{src(a)[:90]}` ({tr})"
+        if node.kind == "return" and st != "" and a.value is not None and any(isinstance(n, ast.Name) and n.id in self.fam for n in ast.walk(a.value)):
+            ex.report(("INIT-AS-GIVEN", self.f.name), f"{self.f.name}: a user-supplied initialisation reaches {st} before it is returned: the iteration no longer starts from the tensor the initialisation represents (with a zero iteration budget the result is not the initialisation; fixed modes come back modified)", node)
+        return st
+
+
+def init_as_given(ctx: Ctx):
+    from ..explore import mk_kind
+
+    repo, res = ctx.repo, ctx.res
+    for qname, init_p, abs_opts in INITIALISERS:
+        f = repo.func(qname)
+        if init_p not in f.all_params:
+            raise AnalysisError(f"INIT-AS-GIVEN: {qname} no longer has the parameter `{init_p}`")
+        g = build_cfg(f.node, f.qname)
+        rule = _InitGiven(f, repo, init_p, abs_opts)
+        consts = {init_p: mk_kind("tuple", 2)}
+        for o in abs_opts:
+            if o in f.all_params:
+                consts[o] = False
+        ex = Explorer(g, rule, consts).run()
+        res.instance("INIT-AS-GIVEN", f"{f.qname} [init = user decomposition]", sample={"paths_to_exit": ex.paths_to_exit, "states": ex.states, "family": sorted(rule.fam)[:8]})
+        if ex.paths_to_exit == 0:
+            raise AnalysisError(f"INIT-AS-GIVEN: no returning path of {qname} for a user-supplied initialisation; cannot decide")
+        for v in ex.violations.values():
+            ctx.finding("INIT-AS-GIVEN", f, v.node.ast, v.message, construct=f"{f.name}: user init transformed", path=v.path)
 
 
 # ---------------------------------------------------------------------------------
